@@ -9,6 +9,7 @@ Oracle: a run whose fault fired must not end in False / [] / exit 0 without
 from __future__ import annotations
 
 import copy
+import os
 
 from sim import gen, rules, util
 
@@ -408,6 +409,15 @@ def _violation(f, fop, oc, info, hard=False):
     }
 
 
+def _names_target(op, f, runner):
+    """A file fault only counts against an operation that actually names that file (the shrinker may have
+    simplified the operation, e.g. dropped --macros, so that the faulted file is no longer one of its inputs)."""
+    tgt = f.get("target")
+    if tgt is None:
+        return True
+    return os.path.normpath(tgt) in runner.named_files(op)
+
+
 def evaluate(case, runner):
     """Replay/shrink oracle: the same operation without its fault, performed in a pristine process on the
     files as they are at that point, must say FOUND; the faulted operation (after its predecessors, if
@@ -443,6 +453,6 @@ def evaluate(case, runner):
             v = _violation(f, fop, oc, info)
             v["signature"] += suffix
             out.append(v)
-        elif is_hard(label) and len(case["ops"]) == 1 and not no_control:
+        elif is_hard(label) and len(case["ops"]) == 1 and not no_control and _names_target(fop, f, runner):
             out.append(_violation(f, fop, oc, info, hard=True))
     return out
